@@ -12,7 +12,7 @@ N_CASES = {"quick": 150, "thorough": 2400}
 SHRINK = True
 ASSUMPTIONS = [
     "integer timestamps after loading; non-negative durations; each rank has at least one communication kernel (quantifier)",
-    "the reported percentage is compared with round(100*num/den, 2) within 0.006; num and den themselves are not exposed by the API",
+    "the reported percentage must lie within 0.005 of the unrounded 100*num/den (any tie rule accepted); num and den themselves are not exposed by the API",
     "pandas sort_values returns some time-sorted permutation (no stability assumed: the theorem quantifies over all of them)",
 ]
 
@@ -55,14 +55,14 @@ def model(drv, case, obs):
 
 
 def _expect(num, den):
-    return "nan" if den == 0 else round(100 * (num / den), 2)
+    return "nan" if den == 0 else 100 * (num / den)     # unrounded; the report may round a tie either way
 
 
 def _cmp(tag, r, got, num, den) -> List[str]:
     exp = _expect(num, den)
     if exp == "nan" or got == "nan":
         return [] if exp == got else [f"rank {r}: impl pct={got}, {tag} num/den={num}/{den}"]
-    if abs(float(got) - exp) > 0.006:
+    if abs(float(got) - exp) > 0.005 + 1e-9:
         return [f"rank {r}: impl pct={got}, {tag} gives {exp} ({num}/{den})"]
     return []
 
